@@ -21,7 +21,9 @@ impl Labels {
 	fn get_or_add_unchecked(&mut self, pc: u16) -> &mut Label {
 		self.labels.entry(pc).or_insert_with(|| {
 			let label = Label { id: self.max_id };
-			self.max_id += 1;
+			// there are at most 65536 bytecode offsets (the one at the end of the code included), so the last label
+			// gets the id 65535 and no further one is created
+			self.max_id = self.max_id.wrapping_add(1);
 			label
 		})
 	}
